@@ -33,8 +33,9 @@ func verifWinGroup() (edge.GroupInfo, models.Dimensions, models.Tags) {
 func VerifC03TimeWindowSeq(v *vrt.T) {
 	pair := verifWinPairs[v.Choose("pair", len(verifWinPairs))]
 	cfg := verifWinCfg{period: pair[0], every: pair[1], align: v.Choose("align", 2) == 1, fill: v.Choose("fill", 2) == 1}
-	base := []int64{verifT2020, verifT1960, 0}[v.Choose("base", 3)]
+	base := []int64{verifT2020, verifT1960, 0}[v.Choose("base", v.Bound("bases", 3))]
 	k := v.Bound("points", 4)
+	barriers := v.Bound("barriers", 0) == 1
 	group, dims, tags := verifWinGroup()
 	period, every := int64(cfg.period), int64(cfg.every)
 
@@ -69,8 +70,16 @@ func VerifC03TimeWindowSeq(v *vrt.T) {
 		if i > 0 {
 			t += int64(v.IntRange("dt", 0, 24))
 		}
-		p := edge.NewPointMessage("m", "db", "rp", dims, models.Fields{"i": int64(i)}, tags, time.Unix(0, t).UTC())
-		msg, err := w.Point(p)
+		// a step is a point or (barriers=1) a barrier: data time advances without a point, which
+		// is how a silence reaches the window
+		isBarrier := barriers && v.Choose("barrier", 2) == 1
+		var msg edge.Message
+		var err error
+		if isBarrier {
+			msg, err = w.Barrier(edge.NewBarrierMessage(group, time.Unix(0, t).UTC()))
+		} else {
+			msg, err = w.Point(edge.NewPointMessage("m", "db", "rp", dims, models.Fields{"i": int64(i)}, tags, time.Unix(0, t).UTC()))
+		}
 		v.Assert(err == nil, "no error")
 		var want []verifPt
 		emit := false
@@ -78,7 +87,9 @@ func VerifC03TimeWindowSeq(v *vrt.T) {
 		if every == 0 {
 			// right-aligned window emitted on every point once the schedule has started
 			// (with fillPeriod the first emission waits for a full period)
-			seen = append(seen, verifPt{t, int64(i)})
+			if !isBarrier {
+				seen = append(seen, verifPt{t, int64(i)})
+			}
 			if t >= next {
 				emit = true
 				tmax = t
@@ -103,7 +114,9 @@ func VerifC03TimeWindowSeq(v *vrt.T) {
 					next = verifTruncRef(next, every)
 				}
 			}
-			seen = append(seen, verifPt{t, int64(i)})
+			if !isBarrier {
+				seen = append(seen, verifPt{t, int64(i)})
+			}
 		}
 		v.Observe("emit", msg != nil)
 		v.Assert((msg != nil) == emit, "emission happens exactly on the reference schedule")
